@@ -3,10 +3,21 @@
   One command per input line, exactly one output line per command.
 -/
 import AxVerif.Model.Parse
-import AxVerif.Model.Machine
+import AxVerif.Model.Step
 open Ax
 
-abbrev DState := Machine
+/-- driver state: the machine, the hook table, the decode facts supplied by the harness -/
+structure DState where
+  m : Machine := {}
+  hooks : HookTable := []
+  dec : List (Nat × List Byte × DecodeRes) := []
+  /-- the real machine may hold partial effects of a failed instruction: state is unspecified -/
+  poisoned : Bool := false
+  /-- a failed instruction may have updated the flags before its write-back failed -/
+  flagsUnknown : Bool := false
+  builtin : Bool := false
+  /-- descriptor numbers for the next pipe() call, fed back from the implementation's run -/
+  fds : Nat × Nat := (0, 0)
 
 def regsLine (r : Regs) : String :=
   " ".intercalate ((List.finRange 16).map fun i => toHex (r.get i).toNat) ++ " " ++ toHex r.rip.toNat
@@ -18,13 +29,13 @@ def unitOut : Out Unit → String := outStr (fun _ => "ok")
 
 def memRes (st : DState) (r : Out Mem) : DState × String :=
   match r with
-  | .ok m => ({ st with mem := m }, "ok")
+  | .ok m => ({ st with m := { st.m with mem := m } }, "ok")
   | .err => (st, "err")
   | .panic => (st, "panic")
 
 def addrRes (st : DState) (r : Out (Nat × Mem)) : DState × String :=
   match r with
-  | .ok (a, m) => ({ st with mem := m }, "ok " ++ toHex a)
+  | .ok (a, m) => ({ st with m := { st.m with mem := m } }, "ok " ++ toHex a)
   | .err => (st, "err")
   | .panic => (st, "panic")
 
@@ -34,91 +45,273 @@ def handleReg (st : DState) (ws : List String) : Option (DState × String) :=
     match (v.splitOn ",").mapM parseHex? with
     | some vals =>
       if vals.length = 17 then
-        let r : Regs := { st.regs with
+        let r : Regs := { st.m.regs with
           gpr := Vector.ofFn fun i => BitVec.ofNat 64 (vals.getD i.val 0),
           rip := BitVec.ofNat 64 (vals.getD 16 0) }
-        some ({ st with regs := r }, "-")
+        some ({ st with m := { st.m with regs := r } }, "-")
       else none
     | none => none
   | ["rw", w, r, v] =>
     match w.toNat?, parseReg? r, parseHex? v with
     | some w, some r, some v =>
       if v < U64 then
-        let (s', res) := regStep st.regs (.write w r (BitVec.ofNat 64 v))
-        some ({ st with regs := s' }, match res with
+        let (s', res) := regStep st.m.regs (.write w r (BitVec.ofNat 64 v))
+        some ({ st with m := { st.m with regs := s' } }, match res with
           | .wrote => "ok" | .rejected => "err" | .crashed => "panic" | .value _ => "bad")
       else none
     | _, _, _ => none
   | ["rr", w, r] =>
     match w.toNat?, parseReg? r with
     | some w, some r =>
-      let (s', res) := regStep st.regs (.read w r)
-      some ({ st with regs := s' }, match res with
+      let (s', res) := regStep st.m.regs (.read w r)
+      some ({ st with m := { st.m with regs := s' } }, match res with
         | .value v => "ok " ++ toHex v.toNat | .rejected => "err" | .crashed => "panic" | .wrote => "bad")
     | _, _ => none
-  | ["regs"] => some (st, regsLine st.regs)
+  | ["regs"] => some (st, regsLine st.m.regs)
   | _ => none
 
 def handleMem (st : DState) (ws : List String) : Option (DState × String) :=
   match ws with
   | ["mrb", a, n] => do
     let a ← parseHex? a; let n ← parseHex? n
-    pure (st, outStr (fun bs => "ok " ++ bytesToHex bs) (memReadBytes st.mem a n))
+    pure (st, outStr (fun bs => "ok " ++ bytesToHex bs) (memReadBytes st.m.mem a n))
   | ["mwb", a, d] => do
     let a ← parseHex? a; let d ← parseHexBytes? d
-    pure (memRes st (memWriteBytes st.mem a d))
+    pure (memRes st (memWriteBytes st.m.mem a d))
   | ["mr", n, a] => do
     let n ← n.toNat?; let a ← parseHex? a
-    pure (st, outStr (fun v => "ok " ++ toHex v) (memReadN st.mem n a))
+    pure (st, outStr (fun v => "ok " ++ toHex v) (memReadN st.m.mem n a))
   | ["mw", n, a, v] => do
     let n ← n.toNat?; let a ← parseHex? a; let v ← parseHex? v
-    pure (memRes st (memWriteN st.mem n a v))
+    pure (memRes st (memWriteN st.m.mem n a v))
   | ["mrx", a] => do
     let a ← parseHex? a
-    pure (st, outStr (fun bs => "ok " ++ bytesToHex bs) (memReadExec st.mem a))
+    pure (st, outStr (fun bs => "ok " ++ bytesToHex bs) (memReadExec st.m.mem a))
   | ["area", s, d, nm] => do
     let s ← parseHex? s; let d ← parseHexBytes? d
-    pure (memRes st (initArea st.mem s d (parseName nm)))
+    pure (memRes st (initArea st.m.mem s d (parseName nm)))
   | ["zero", s, n, nm] => do
     let s ← parseHex? s; let n ← parseHex? n
-    pure (memRes st (initZero st.mem s n (parseName nm)))
+    pure (memRes st (initZero st.m.mem s n (parseName nm)))
   | ["prot", s, p] => do
     let s ← parseHex? s; let p ← parseHex? p
-    pure (memRes st (memProt st.mem s p))
+    pure (memRes st (memProt st.m.mem s p))
   | ["resize", s, n] => do
     let s ← parseHex? s; let n ← parseHex? n
-    pure (memRes st (resizeSection st.mem s n))
+    pure (memRes st (resizeSection st.m.mem s n))
   | ["anyz", n] => do
     let n ← parseHex? n
-    pure (addrRes st (initZeroAnywhere st.mem n))
+    pure (addrRes st (initZeroAnywhere st.m.mem n))
   | ["any", d, nm] => do
     let d ← parseHexBytes? d
-    pure (addrRes st (initAnywhere st.mem d (parseName nm)))
-  | ["areas"] => some (st, if st.mem.isEmpty then "none" else " ".intercalate (st.mem.map areaLine))
+    pure (addrRes st (initAnywhere st.m.mem d (parseName nm)))
+  | ["areas"] => some (st, if st.m.mem.isEmpty then "none" else " ".intercalate (st.m.mem.map areaLine))
   | _ => none
+
+def traceLine (t : List TraceEntry) : String :=
+  if t.isEmpty then "none" else
+  " ".intercalate (t.map fun e =>
+    let v := match e.variant with | .call => "c" | .ret => "r" | .jump => "j"
+    s!"{toHex e.instrIp},{toHex e.target},{v},{e.level},{e.count}")
+
+def stateLine (m : Machine) (flagsUnknown : Bool := false) : String :=
+  s!"fin={if m.finished then 1 else 0} count={m.count} rip={toHex m.regs.rip.toNat} flags={if flagsUnknown then "?" else toHex m.rflags.toNat} " ++
+  s!"codeend={toHex m.codeEnd} stacktop={toHex m.stackTop} running={if m.hooksRunning then 1 else 0} " ++
+  s!"fs={toHex m.fs.toNat} gs={toHex m.gs.toNat}"
+
+/-- scripted hook: logs (id, phase, rip, count), optionally edits a register, then reports its outcome -/
+def scriptedHook (id phase outcome : String) (edit : Option (Fin 16 × BitVec 64)) : HookFn := fun s =>
+  let s1 := { s with log := s.log ++ [s!"{id}:{phase}:{toHex s.regs.rip.toNat}:{s.count}:{if s.hooksRunning then 1 else 0}"] }
+  let s2 := match edit with
+    | some (i, v) => { s1 with regs := s1.regs.set i v }
+    | none => s1
+  match outcome with
+  | "error" => .err s2
+  | "handled" => .ok .handled s2
+  | "stop" => .ok .unhandled { s2 with finished := true }
+  | "stophandled" => .ok .handled { s2 with finished := true }
+  | _ => .ok .unhandled s2
+
+def decodeFn (dec : List (Nat × List Byte × DecodeRes)) : Machine → List Byte → DecodeRes := fun s w =>
+  match dec.find? (fun (a, win, _) => a == s.regs.rip.toNat && win == w) with
+  | some (_, _, r) => r
+  | none => .invalid
+
+def hasDec (dec : List (Nat × List Byte × DecodeRes)) (s : Machine) : Bool :=
+  match memReadExec s.mem s.regs.rip.toNat with
+  | .ok w => w.isEmpty || (dec.any fun (a, win, _) => a == s.regs.rip.toNat && win == w)
+  | _ => true
+
+def stepOutStr : StepOut → String
+  | .ok true => "ok 1"
+  | .ok false => "ok 0"
+  | .err => "err"
+  | .panic => "panic"
+
+def parseStrList (s : String) : Option (List (List Byte)) :=
+  if s = "-" then some [] else (s.splitOn ",").mapM parseHexBytes?
+
+def registerSyscall (st : DState) (n : Nat) : DState :=
+  if st.m.sys.registered.contains n then st else
+  let hooks := match n with
+    | 60 => st.hooks.addBefore "Syscall" hookExit
+    | 12 => st.hooks.addBefore "Syscall" hookBrk
+    | 158 => st.hooks.addBefore "Syscall" hookArchPrctl
+    | 22 => ((st.hooks.addBefore "Syscall" (fun s => hookPipe (0, 0) s)).addBefore "Syscall" hookPipeRead).addBefore "Syscall" hookPipeWrite
+    | _ => st.hooks
+  { st with hooks := hooks, builtin := true, m := { st.m with sys := { st.m.sys with registered := st.m.sys.registered ++ [n] } } }
+
+/-- the pipe hook needs the descriptor numbers of this very call: rebuild the table entry with them -/
+def withFds (hooks : HookTable) (registered : List Nat) (fds : Nat × Nat) : HookTable :=
+  if !registered.contains 22 then hooks else
+  -- replace hooks in registration order: position of the pipe hook among the "before Syscall" hooks
+  let idx := (registered.takeWhile (· != 22)).foldl (fun acc n => acc + (if n == 22 then 3 else 1)) 0
+  hooks.map fun (k, e) =>
+    if k == "Syscall" then (k, { e with before := e.before.set idx (hookPipe fds) }) else (k, e)
+
+def handleMachine (st : DState) (ws : List String) : Option (DState × String) :=
+  match ws with
+  | "dec" :: a :: w :: rest => do
+    let a ← parseHex? a
+    let w ← parseHexBytes? w
+    let r ← match rest with
+      | ["invalid"] => some DecodeRes.invalid
+      | toks => (parseInstr toks).map DecodeRes.instr
+    pure ({ st with dec := (a, w, r) :: st.dec }, "-")
+  | "step" :: fb =>
+    -- feedback token from the implementation's run: @fds=r,w
+    let fds : Nat × Nat := match fb with
+      | [t] => match (t.drop 5).toString.splitOn "," with
+        | [r, w] => ((parseHex? r).getD 0, (parseHex? w).getD 0)
+        | _ => (0, 0)
+      | _ => (0, 0)
+    if st.poisoned then some (st, "unspecified") else
+    if !hasDec st.dec st.m then some (st, "no-decode-info") else
+    -- user hooks registered after the syscall handlers come later in the chain; the builtin pipe hook sits at a
+    -- fixed index among the builtin ones
+    let hooks := withFds st.hooks st.m.sys.registered fds
+    -- with unknown flags an instruction that reads them makes everything unknown
+    let readsFlags : Bool := match memReadExec st.m.mem st.m.regs.rip.toNat with
+      | .ok w => match decodeFn st.dec st.m w with
+        | .instr i => i.mnem.startsWith "J" || i.mnem.startsWith "Cmov" || i.mnem.startsWith "Set" || i.mnem == "Adc"
+        | .invalid => false
+      | _ => false
+    if st.flagsUnknown && readsFlags then some ({ st with poisoned := true }, "unspecified") else
+    let r := step hooks (decodeFn st.dec) st.m
+    -- a failing instruction handler changes nothing but (possibly) the flags; a failing built-in hook may leave more
+    let poisoned := r.out == .panic
+    some ({ st with m := r.s, poisoned := poisoned, flagsUnknown := st.flagsUnknown || r.errInExec }, stepOutStr r.out)
+  | ["execute", fuel] => do
+    let fuel ← fuel.toNat?
+    if st.poisoned then some (st, "unspecified") else
+    if st.flagsUnknown then some ({ st with poisoned := true }, "unspecified") else
+    let r := execute st.hooks (decodeFn st.dec) fuel st.m
+    let poisoned := r.out == .panic
+    pure ({ st with m := r.s, poisoned := poisoned, flagsUnknown := r.errInExec }, match r.out with
+      | .ok false => "ok" | .ok true => "fuel" | .err => "err" | .panic => "panic")
+  | ["maxinstr", n] => do
+    let n ← parseHex? n
+    pure ({ st with m := { st.m with maxInstr := some n } }, "-")
+  | ["setflags", v] => do
+    let v ← parseHex? v
+    pure ({ st with m := { st.m with rflags := BitVec.ofNat 64 v }, flagsUnknown := false }, "-")
+  | ["setseg", which, v] => do
+    let v ← parseHex? v
+    match which with
+    | "fs" => pure ({ st with m := { st.m with fs := BitVec.ofNat 64 v } }, "-")
+    | "gs" => pure ({ st with m := { st.m with gs := BitVec.ofNat 64 v } }, "-")
+    | _ => none
+  | ["setxmm", i, v] => do
+    let i ← i.toNat?
+    let v ← parseHex? v
+    if h : i < 16 then
+      pure ({ st with m := { st.m with regs := { st.m.regs with xmm := st.m.regs.xmm.set i (BitVec.ofNat 128 v) } } }, "-")
+    else none
+  | ["xmms"] =>
+    if st.poisoned then some (st, "unspecified") else
+    some (st, " ".intercalate ((List.finRange 16).map fun i => toHex st.m.regs.xmm[i].toNat))
+  | ["state"] => if st.poisoned then some (st, "unspecified") else some (st, stateLine st.m st.flagsUnknown)
+  | ["trace"] => if st.poisoned then some (st, "unspecified") else some (st, traceLine st.m.trace)
+  | ["callstack"] =>
+    if st.poisoned then some (st, "unspecified") else
+    some (st, if st.m.callStack.isEmpty then "none" else " ".intercalate (st.m.callStack.map toHex))
+  | ["render"] => some (st, "ok")
+  | ["log"] => if st.poisoned then some (st, "unspecified") else some (st, if st.m.log.isEmpty then "none" else " ".intercalate st.m.log)
+  | ["hook", phase, mn, id, outcome, edit] =>
+    if st.m.hooksRunning then some (st, "err") else
+    let e : Option (Fin 16 × BitVec 64) := match edit.splitOn "=" with
+      | [r, v] => match findIdx? gprNames64 r 16, parseHex? v with
+        | some i, some v => some (i, BitVec.ofNat 64 v)
+        | _, _ => none
+      | _ => none
+    let f := scriptedHook id phase outcome e
+    match phase with
+    | "before" => some ({ st with hooks := st.hooks.addBefore mn f }, "ok")
+    | "after" => some ({ st with hooks := st.hooks.addAfter mn f }, "ok")
+    | _ => none
+  | ["syscalls", l] => do
+    let ns ← (l.splitOn ",").mapM String.toNat?
+    if st.m.hooksRunning then pure (st, "err") else
+    pure (ns.foldl registerSyscall st, "ok")
+  | ["stack", n] => do
+    let n ← parseHex? n
+    match initStack st.m n with
+    | .ok (a, m) => pure ({ st with m := m }, "ok " ++ toHex a)
+    | .err => pure (st, "err")
+    | .panic => pure (st, "panic")
+  | ["stackps", n, argv, envp] => do
+    let n ← parseHex? n
+    let argv ← parseStrList argv
+    let envp ← parseStrList envp
+    match initStackProgramStart st.m n argv envp with
+    | .ok (a, m) => pure ({ st with m := m }, "ok " ++ toHex a)
+    | .err => pure ({ st with poisoned := true }, "err")
+    | .panic => pure (st, "panic")
+  | ["ldreg", r, a] => do
+    let i ← findIdx? gprNames64 r 16
+    let a ← parseHex? a
+    match memReadN st.m.mem 8 a with
+    | .ok v => pure ({ st with m := { st.m with regs := st.m.regs.set i (BitVec.ofNat 64 v) } }, "ok " ++ toHex v)
+    | .err => pure (st, "err")
+    | .panic => pure (st, "panic")
+  | ["sys"] =>
+    if st.poisoned then some (st, "unspecified") else
+    some (st, s!"brk={toHex st.m.sys.brkStart},{toHex st.m.sys.brkLen} pipes=" ++
+      (if st.m.sys.pipes.isEmpty then "none" else
+        ";".intercalate (((st.m.sys.pipes.toArray.qsort (fun a b => a.1 < b.1)).toList).map fun (r, w, c) => s!"{toHex r},{toHex w},{bytesToHex c}")))
+  | _ => none
+
+def poisonable (ws : List String) : Bool :=
+  match ws with
+  | "dec" :: _ => false
+  | _ => true
 
 def handle (st : DState) (ws : List String) : DState × String :=
   match ws with
   | ["new"] =>
     match Machine.new Regs.zero [0x90#8] 0x1000 0x1000 with
-    | .ok s => (s, "ok")
+    | .ok s => ({ m := s }, "ok")
     | .err => (st, "err")
     | .panic => (st, "panic")
   | ["new", code, start, rip] =>
     match parseHexBytes? code, parseHex? start, parseHex? rip with
     | some c, some s, some r =>
       match Machine.new Regs.zero c s r with
-      | .ok m => (m, "ok")
+      | .ok m => ({ m := m }, "ok")
       | .err => (st, "err")
       | .panic => (st, "panic")
     | _, _, _ => (st, "bad-op")
   | _ =>
+    if st.poisoned && poisonable ws then (st, "unspecified") else
     match handleReg st ws with
     | some r => r
     | none =>
       match handleMem st ws with
       | some r => r
-      | none => (st, "bad-op")
+      | none =>
+        match handleMachine st ws with
+        | some r => r
+        | none => (st, "bad-op")
 
 partial def loop (h : IO.FS.Stream) (out : IO.FS.Stream) (st : DState) : IO Unit := do
   let line ← h.getLine
